@@ -26,6 +26,9 @@ pub enum Kind {
     /// 4 disconnect-ack, 5 handshake ack, 6 empty data frames numbered upwards from the nonce of this address's own
     /// latest SYN - what a real client's first data frames look like), one per server step
     TinyBurst { kind: u8, count: u16 },
+    /// a handshake ACK carrying the nonce of the latest SYN-ACK the server sent to ANOTHER address (what an attacker
+    /// who owns that other address can learn and replay under a spoofed source)
+    CrossAck { from: u8 },
 }
 
 #[derive(Clone, Debug, Serialize, Deserialize)]
@@ -37,6 +40,9 @@ pub struct Op {
     /// the server application does not call step() during that wait (it stalls, then resumes)
     #[serde(default)]
     pub stall: bool,
+    /// the server is not stepped after this datagram: it is read in the same step() as the next op's datagram
+    #[serde(default)]
+    pub batch: bool,
 }
 
 #[derive(Clone, Debug, Serialize, Deserialize)]
@@ -77,6 +83,7 @@ fn kind_strategy() -> impl Strategy<Value = Kind> {
         2 => (0u8..8, any::<u32>(), any::<u32>()).prop_map(|(kind, a, b)| Kind::Stray { kind, a, b }),
         1 => (proptest::collection::vec(any::<u8>(), 0..60), any::<bool>()).prop_map(|(bytes, fix_crc)| Kind::Raw { bytes, fix_crc }),
         3 => (prop_oneof![3 => 0u8..6, 2 => Just(6u8)], prop_oneof![1u16..20, 20u16..400]).prop_map(|(kind, count)| Kind::TinyBurst { kind, count }),
+        2 => (0u8..5).prop_map(|from| Kind::CrossAck { from }),
     ]
 }
 
@@ -97,7 +104,7 @@ impl Check for C18 {
     }
 
     fn strategy(&self, tier: Tier) -> BoxedStrategy<Case> {
-        let op = (0u8..5, kind_strategy(), prop_oneof![4 => Just(0u32), 3 => 1u32..300, 2 => 300u32..2500, 1 => 2500u32..25_000, 1 => 25_000u32..60_000], prop_oneof![6 => Just(false), 1 => Just(true)]).prop_map(|(addr, kind, wait_ms, stall)| Op { addr, kind, wait_ms, stall });
+        let op = (0u8..5, kind_strategy(), prop_oneof![4 => Just(0u32), 3 => 1u32..300, 2 => 300u32..2500, 1 => 2500u32..25_000, 1 => 25_000u32..60_000], prop_oneof![6 => Just(false), 1 => Just(true)], prop_oneof![4 => Just(false), 1 => Just(true)]).prop_map(|(addr, kind, wait_ms, stall, batch)| Op { addr, kind, wait_ms, stall, batch });
         (
             any::<u64>(),
             prop_oneof![1u8..4, Just(200u8)],
@@ -118,7 +125,7 @@ impl Check for C18 {
     }
 
     fn rule(&self) -> String {
-        "case = a real Server (limits 1..3 or 200, generated packet-size / allocation settings so that some requests are refused) with generated active-timeout (1 s .. 1 h, or 2^32-1 ms), keepalive and rate settings, and up to five spoofable source addresses sending, in a generated interleaving with waits of 0..60 s (during some of which the server application stalls, i.e. does not step at all) and a final wait of up to 12 minutes (so that all SYN-ACK resends and the pending-entry expiry are observed, however the server is configured): well-formed padded SYNs (also wrong version, extreme limits), repeats of the previous SYN, SYN-typed frames of every length below 1472 with a valid checksum, handshake ACKs with arbitrary nonces, frames of every other type, bursts of up to 400 minimum-size frames (10..15 bytes) one per step - among them data frames numbered upwards from the nonce of the address's own SYN, as a real client's first frames would be -, raw bytes. No address ever completes the handshake. Oracle after every server step: no address is ever reported as connected; per address: bytes sent to it are 0 or strictly less than the bytes received from it; a datagram that is not a full-size SYN produces no reply at all, and copies of a SYN-ACK are never less than 2 s apart. Non-trivial = the server sent at least one byte to an unverified address. Distinct = distinct serialised case.".into()
+        "case = a real Server (limits 1..3 or 200, generated packet-size / allocation settings so that some requests are refused) with generated active-timeout (1 s .. 1 h, or 2^32-1 ms), keepalive and rate settings, and up to five spoofable source addresses sending, in a generated interleaving (one datagram in five is read in the same server step as the next one) with waits of 0..60 s (during some of which the server application stalls, i.e. does not step at all) and a final wait of up to 12 minutes (so that all SYN-ACK resends and the pending-entry expiry are observed, however the server is configured): handshake ACKs carrying the nonce of the latest SYN-ACK the server sent to ANOTHER of the addresses (what the owner of that address can replay under a spoofed source), well-formed padded SYNs (also wrong version, extreme limits), repeats of the previous SYN, SYN-typed frames of every length below 1472 with a valid checksum, handshake ACKs with arbitrary nonces, frames of every other type, bursts of up to 400 minimum-size frames (10..15 bytes) one per step - among them data frames numbered upwards from the nonce of the address's own SYN, as a real client's first frames would be -, raw bytes. No address ever completes the handshake. Oracle after every server step: no address is ever reported as connected; per address: bytes sent to it are 0 or strictly less than the bytes received from it; a datagram that is not a full-size SYN produces no reply at all, and copies of a SYN-ACK are never less than 2 s apart. Non-trivial = the server sent at least one byte to an unverified address. Distinct = distinct serialised case.".into()
     }
 
     fn assumptions(&self) -> Vec<String> {
@@ -201,6 +208,7 @@ impl Check for C18 {
             None
         };
 
+        let mut batched = false;
         for op in c.ops.iter() {
             let a = raw_addr(op.addr as u32);
             let mut full_syn = false;
@@ -285,12 +293,27 @@ impl Check for C18 {
                     }
                 }
                 Kind::TinyBurst { .. } => unreachable!(),
+                Kind::CrossAck { from } => {
+                    let other = raw_addr(*from as u32);
+                    let nonce = w.wire.iter().rev().find_map(|r| if r.to == other && r.from == w.server_addr { if let Some(Frame::HandshakeSynAckFrame(f)) = Frame::read(&r.bytes) { Some(f.nonce) } else { None } } else { None });
+                    if other != a && nonce.is_some() {
+                        classes.push("ack_with_nonce_sent_to_another_address");
+                    }
+                    // (towards its own address this would be a genuine handshake: never done here)
+                    Frame::HandshakeAckFrame(HandshakeAckFrame { nonce_ack: if other == a { 1 } else { nonce.unwrap_or(1) } }).write().to_vec()
+                }
             };
             // is this really a full-size, well-formed SYN?
             let is_full_syn = full_syn && bytes.len() == 1472 && matches!(Frame::read(&bytes), Some(Frame::HandshakeSynFrame(_)));
             let sent_before = tx.get(&a).copied().unwrap_or(0);
             w.send_raw(a, w.server_addr, &bytes, 0);
             *rx.entry(a).or_insert(0) += bytes.len() as u64;
+            if op.batch {
+                batched = true;
+                classes.push("datagrams_read_in_one_step");
+                continue;
+            }
+            let after_batch = std::mem::replace(&mut batched, false);
             w.step_server();
             if let Some(v) = account(&w, &mut seen_wire, &mut tx, &rx) {
                 return CaseResult { violation: Some(v), nontrivial: true, classes };
@@ -299,7 +322,7 @@ impl Check for C18 {
                 return CaseResult { violation: Some(v), nontrivial: true, classes };
             }
             let sent_after = tx.get(&a).copied().unwrap_or(0);
-            if !is_full_syn && !matches!(op.kind, Kind::Raw { .. }) && sent_after > sent_before && w.wire.last().map_or(false, |r| r.to == a && r.t_us == w.now_us) {
+            if !after_batch && !is_full_syn && !matches!(op.kind, Kind::Raw { .. }) && sent_after > sent_before && w.wire.last().map_or(false, |r| r.to == a && r.t_us == w.now_us) {
                 // a reply at this very step can only have been caused by this datagram or a resend timer;
                 // resend timers are excluded by checking the reply type below
                 let last = w.wire.iter().rev().find(|r| r.to == a).unwrap();
